@@ -74,6 +74,11 @@ func init() {
 					x, label := allNamesValue(exactGen(c, true, idx), idx)
 					roundTrip(c, "gob", vmodel.Exact, gobPairs, x, label, nil)
 				}},
+				{Name: "constructed", N: len(allConstructed), Exhaustive: true, Run: func(c *Ctx, idx int) {
+					cv := allConstructed[idx]
+					c.Count("constructed", 1)
+					singleVariants(c, "gob", vmodel.Exact, gobPairs, cv.Make(), "constructed "+cv.Label, nil)
+				}},
 				{Name: "bare-embedded", N: len(bareCases), Exhaustive: true, Run: func(c *Ctx, idx int) {
 					bc := bareCases[idx]
 					inner, host := exactGen(c, true, idx).BuildBare(bc, true)
